@@ -15,6 +15,8 @@ on anything else ("untranslatable construct at file:line"): a failure is a broke
   Gen/SemiImp.lean    … of SemiSupervisedOPF.fit
   Gen/ClusImp.lean    … of KNNSupervisedOPF._clustering and UnsupervisedOPF._clustering
   Gen/ArcsImp.lean    … of KNNSubgraph.create_arcs and Subgraph.destroy_arcs
+  Gen/PdfImp.lean, CutImp.lean, KnnPredImp.lean   … of calculate_pdf, _normalized_cut, the two density `predict`s
+                      (float arithmetic as the uninterpreted operations `Py.FOps`)
 """
 import ast
 import decimal
@@ -786,6 +788,12 @@ def main():
     err = translate_fn.translate_arcs(REPO, GEN, consts, write)
     if err:
         notes.append(f"TRANSLATOR-IMP(arcs): {err}")
+    err = translate_fn.translate_density(REPO, GEN, consts, write)
+    if err:
+        notes.append(f"TRANSLATOR-IMP(pdf/cut): {err}")
+    err = translate_fn.translate_knnpred(REPO, GEN, consts, write)
+    if err:
+        notes.append(f"TRANSLATOR-IMP(knn predict): {err}")
     for n in notes:
         print(n)
     return 0
